@@ -25,6 +25,7 @@ Tie to the source:
 import itertools
 import json
 import os
+import random
 
 from .common import CORPUS, coq_list, coq_string, parse_eval_lists, shards
 
@@ -227,7 +228,23 @@ def render(spec):
 def source_text(spec):
     return ("from functools import partial\n"
             "from magicbot.state_machine import StateMachine, state, timed_state, default_state\n\n"
-            + "\n".join(render(spec)))
+            + "\n".join(render(spec)) + render_history(spec))
+
+
+def render_history(spec):
+    """The history as the statements the harness carries out (nothing is dropped in between)."""
+    hist = history_of(spec)
+    if not hist:
+        return ""
+    out = ["", "# history (every instance, entry and publisher stays alive; names/descs are then read through",
+           "# the instance and through an independent NetworkTables subscriber)"]
+    for n, ev in enumerate(hist):
+        if "pub" in ev:
+            out.append("p%d = nt.getStringArrayTopic(%r).publish(); p%d.set(%r)"
+                       % (n, topic_path(ev["name"], ev["pub"]), n, list(ev["value"])))
+        else:
+            out.append("o%d = C%d(); setup_tunables(o%d, %r, \"components\")" % (n, ev["c"], n, nt_name(ev["name"])))
+    return "\n".join(out) + "\n"
 
 
 def spec_attr(i, e):
@@ -254,18 +271,16 @@ def sm_flags(spec):
 
 # --------------------------------------------------------------------------
 # running one case against the implementation
-_counter = [0]
-
-
 def run_case(spec):
-    """Returns obs = {"def_err": None | [cls, code], "extras": [[..]..], "targets": [[mro]..],
-    "insts": [...], "adapters": [[cls, key, [vals]]], "harness_ok": bool}."""
+    """Returns obs = {"def_err": None | [cls, code], "extras": [[..]..], "init": [[topic, value]..],
+    "events": [one record per event of history_of(spec)], "adapters": [[cls, key, [vals]]],
+    "harness_ok": bool}."""
     sm, mt = impl()
     SM = sm.StateMachine
     import functools
     ns = {"__name__": "c12case", "StateMachine": SM, "state": sm.state, "partial": functools.partial,
           "timed_state": sm.timed_state, "default_state": sm.default_state}
-    obs = {"def_err": None, "extras": [], "targets": [], "insts": [], "adapters": [], "harness_ok": True}
+    obs = {"def_err": None, "extras": [], "init": [], "events": [], "adapters": [], "harness_ok": True}
     classes = []
     for i, chunk in enumerate(render(spec)):
         code = compile(chunk, "<c12 class C%d>" % i, "exec")
@@ -291,27 +306,96 @@ def run_case(spec):
                 except Exception:
                     vals = [99]
                 obs["adapters"].append([i, k, vals])
-    for i, cls in enumerate(classes):
-        if not flags[i]:
+    run_events(sm, mt, spec, classes, flags, obs)
+    return obs
+
+
+# --------------------------------------------------------------------------
+# instantiation histories and binding
+LEAVES = {"names": "state_names", "descs": "state_descriptions"}
+NAME_TAGS = ["a", "b", "c"]
+
+
+def nt_name(tag):
+    return "c12_" + tag
+
+
+def topic_path(tag, leaf):
+    """The NetworkTables key setup_tunables(o, nt_name(tag), "components") uses for the tunable."""
+    return "/components/%s/state/%s" % (nt_name(tag), LEAVES[leaf])
+
+
+def default_history(spec):
+    """For a case that carries no history: every StateMachine class once in definition order
+    (base classes first), then once more in the opposite order, all bound under one name."""
+    flags = sm_flags(spec)
+    sms = [i for i, f in enumerate(flags) if f]
+    return [{"c": i, "name": "a"} for i in sms + sms[::-1]]
+
+
+def history_of(spec):
+    """The events of the case that can be carried out: attempts on StateMachine classes that
+    exist, plain publishes."""
+    flags = sm_flags(spec)
+    hist = spec["history"] if "history" in spec else default_history(spec)
+    return [ev for ev in hist if "pub" in ev or (0 <= ev["c"] < len(flags) and flags[ev["c"]])]
+
+
+def read_sub(sub):
+    """What an independent subscriber sees on a topic: None if the topic holds no value."""
+    v = sub.get()
+    if not v.isValid():
+        return None
+    if v.isStringArray():
+        return [str(x) for x in v.getStringArray()]
+    return ["<not a string array: %s>" % v.type()]
+
+
+def run_events(sm, mt, spec, classes, flags, obs):
+    """Carries out the history: o = C(); setup_tunables(o, name, "components"); read the two lists
+    through the instance and through subscribers that have nothing to do with the machine.  All
+    instances, entries and publishers stay alive until the end of the case."""
+    from ntcore import NetworkTableInstance
+    nt = NetworkTableInstance.getDefault()
+    hist = history_of(spec)
+    tags = dedupe([ev["name"] for ev in hist])
+    subs = {(t, leaf): nt.getTopic(topic_path(t, leaf)).genericSubscribe() for t in tags for leaf in LEAVES}
+    obs["init"] = []
+    for (t, leaf), sub in subs.items():
+        v = read_sub(sub)
+        if v is not None:
+            obs["init"].append([topic_path(t, leaf), v])
+    keep = []
+    called = set()
+    for ev in hist:
+        if "pub" in ev:
+            pub = nt.getStringArrayTopic(topic_path(ev["name"], ev["pub"])).publish()
+            pub.set([str(x) for x in ev["value"]])
+            keep.append(pub)
+            obs["events"].append({"pub": ev["pub"], "seen": read_sub(subs[(ev["name"], ev["pub"])])})
             continue
-        mro = [j for c in cls.__mro__ for j, d in enumerate(classes) if d is c]
-        obs["targets"].append(mro)
+        i = ev["c"]
+        cls = classes[i]
+        rec = {"c": i, "mro": [j for c in cls.__mro__ for j, d in enumerate(classes) if d is c]}
+        obs["events"].append(rec)
         try:
             o = cls()
         except Exception as e:
-            obs["insts"].append({"err": exc_code(sm, e), "exc": "%s: %s" % (type(e).__name__, e)})
+            rec.update({"err": exc_code(sm, e), "exc": "%s: %s" % (type(e).__name__, e)})
             continue
-        _counter[0] += 1
+        keep.append(o)
         try:
-            mt.setup_tunables(o, "c12_%d" % (_counter[0] % 13), "components")
+            mt.setup_tunables(o, nt_name(ev["name"]), "components")
             names = [str(x) for x in o.state_names]
             descs = [str(x) for x in o.state_descriptions]
         except Exception as e:
-            obs["insts"].append({"err": 9, "exc": "reading tunables: %s: %s" % (type(e).__name__, e)})
+            rec.update({"err": 9, "exc": "reading tunables: %s: %s" % (type(e).__name__, e)})
             continue
+        rec.update({"names": names, "descs": descs,
+                    "sub_names": read_sub(subs[(ev["name"], "names")]),
+                    "sub_descs": read_sub(subs[(ev["name"], "descs")])})
         calls = []
-        for n in names[:3]:
-            st = cls.__dict__.get(n)
+        for n in ([] if i in called else names[:3]):
             for how in (0, 1, 2):
                 try:
                     if how == 0:
@@ -324,8 +408,9 @@ def run_case(spec):
                     calls.append(0)
                 except Exception as e:
                     calls.append(exc_code(sm, e))
-        obs["insts"].append({"names": names, "descs": descs, "calls": calls})
-    return obs
+        called.add(i)
+        rec["calls"] = calls
+    del keep, subs
 
 
 # --------------------------------------------------------------------------
@@ -405,8 +490,13 @@ def oracle(spec, obs):
             return ("c12-adapter-argument-order",
                     "state %s of C%d declared (%s) received %r for run(self=0, tm=1, state_tm=2, initial_call=3)"
                     % (k, i, render_params(e["params"]), vals))
-    # instantiation
-    for mro, inst in zip(obs["targets"], obs["insts"]):
+    # every event of the history: an attempt is judged by its class alone -- whatever was
+    # instantiated, bound or published before it
+    hist = history_of(spec)
+    for n_ev, (ev, inst) in enumerate(zip(hist, obs["events"])):
+        if "pub" in ev:
+            continue        # somebody else's publish: the property says nothing about it
+        mro = inst["mro"]
         keys = {j: dedupe(list(finals[j].keys())) + obs["extras"][j] for j in mro}
 
         def effective(k):
@@ -421,18 +511,30 @@ def oracle(spec, obs):
         nf = sum(1 for k in states if effective(k)["deco"][0] != "default" and effective(k)["deco"][1])
         nd = sum(1 for k in states if effective(k)["deco"][0] == "default")
         who = "C%d (MRO %s)" % (mro[0], ["C%d" % j for j in mro])
+        if n_ev:
+            who += " [event %d, after %s]" % (n_ev + 1, history_text(hist[:n_ev]))
         if nf == 1 and nd <= 1:
             if "err" in inst:
                 return ("c12-wellformed-machine-not-instantiable",
                         "%s has exactly one first state and %d default state(s) but instantiation raised %s"
                         % (who, nd, inst.get("exc")))
             exp_desc = [effective(k).get("doc") or "" for k in states]
+            bound = "bound as %r" % nt_name(ev["name"])
             if inst["names"] != states:
                 return ("c12-state-names-wrong",
-                        "%s: state_names = %r, its states (bases first, definition order) are %r" % (who, inst["names"], states))
+                        "%s %s: state_names = %r, its states (bases first, definition order) are %r"
+                        % (who, bound, inst["names"], states))
             if inst["descs"] != exp_desc:
                 return ("c12-state-descriptions-wrong",
-                        "%s: state_descriptions = %r, expected %r for %r" % (who, inst["descs"], exp_desc, states))
+                        "%s %s: state_descriptions = %r, expected %r for %r" % (who, bound, inst["descs"], exp_desc, states))
+            if inst["sub_names"] != states:
+                return ("c12-state-names-topic-wrong",
+                        "%s %s: a NetworkTables subscriber sees %s = %r, the states of the machine are %r"
+                        % (who, bound, topic_path(ev["name"], "names"), inst["sub_names"], states))
+            if inst["sub_descs"] != exp_desc:
+                return ("c12-state-descriptions-topic-wrong",
+                        "%s %s: a NetworkTables subscriber sees %s = %r, expected %r for %r"
+                        % (who, bound, topic_path(ev["name"], "descs"), inst["sub_descs"], exp_desc, states))
             if any(c != 7 for c in inst["calls"]):
                 return ("c12-direct-call-not-rejected",
                         "%s: calling a state directly gave %r (IllegalCallError expected)"
@@ -448,6 +550,16 @@ def oracle(spec, obs):
                         "%s has %d first and %d default states; instantiation raised %s, allowed: %s"
                         % (who, nf, nd, inst.get("exc"), [CODE_NAMES[c] for c in allowed]))
     return None
+
+
+def history_text(hist):
+    out = []
+    for ev in hist:
+        if "pub" in ev:
+            out.append("publish(%s, %r)" % (topic_path(ev["name"], ev["pub"]), ev["value"]))
+        else:
+            out.append("C%d() as %r" % (ev["c"], nt_name(ev["name"])))
+    return "; ".join(out)
 
 
 # --------------------------------------------------------------------------
@@ -862,6 +974,58 @@ def gen_hier(rng):
     return tags, {"classes": classes}
 
 
+ORDERS = ["asc", "desc", "shuffle", "each-twice", "each-thrice"]
+OLD_VALUES = [["old_a", "old_b"], ["zz"], [], ["s1", "s2", "s3", "s4", "s5", "s6"], ["stale", "", "stale"]]
+
+
+def attach_history(rng, spec):
+    """Gives the case a history: every StateMachine class is attempted at least twice -- base
+    classes before their subclasses, subclasses before their base classes, back to back or
+    interleaved -- and the instances are bound under component names whose topics already hold
+    something else: the lists of the machine bound there before (another class, a base class, a
+    subclass; kept alive) or the value of a plain publisher.  Returns tags for the counters."""
+    flags = sm_flags(spec)
+    sms = [i for i, f in enumerate(flags) if f]
+    if not sms:
+        spec["history"] = []
+        return []
+    rounds = []
+    how = rng.choice(["asc+asc", "asc+desc", "desc+asc", "desc+desc", "shuffle", "each-twice", "each-thrice",
+                      "desc+asc", "asc+desc"])
+    if how == "shuffle":
+        for _ in range(rng.choice([2, 3])):
+            r_ = list(sms)
+            rng.shuffle(r_)
+            rounds += r_
+    elif how.startswith("each"):
+        k = 2 if how == "each-twice" else 3
+        base = sms if rng.random() < 0.5 else sms[::-1]
+        rounds = [i for i in base for _ in range(k)]
+    else:
+        for part in how.split("+"):
+            rounds += sms if part == "asc" else sms[::-1]
+    naming = rng.choice(["same", "same", "same", "per-class", "random"])
+    hist = []
+    for i in rounds:
+        if naming == "same":
+            tag = "a"
+        elif naming == "per-class":
+            tag = NAME_TAGS[i % 2]
+        else:
+            tag = rng.choice(NAME_TAGS)
+        hist.append({"c": i, "name": tag})
+    tags = ["order=" + how, "naming=" + naming]
+    if rng.random() < 0.3:
+        used = dedupe([ev["name"] for ev in hist])
+        for _ in range(rng.choice([1, 1, 2])):
+            pos = rng.choice([0, 0, rng.randrange(len(hist) + 1)])
+            hist.insert(pos, {"pub": rng.choice(["names", "descs"]), "name": rng.choice(used),
+                              "value": list(rng.choice(OLD_VALUES))})
+        tags.append("plain-publisher")
+    spec["history"] = hist
+    return tags
+
+
 def gen_cases(sm, ctx):
     cases = []
     cdir = os.path.join(CORPUS, "C12")
@@ -894,7 +1058,14 @@ def gen_cases(sm, ctx):
             if t:
                 tags = tags + [t]
         cases.append((["hier"] + tags, c))
-    return cases
+    # histories come from a stream of their own: the definitions are those of earlier versions
+    hrng = random.Random("c12-history-%d" % ctx.seed)
+    out = []
+    for tags, c in cases:
+        if "history" not in c and tags != ["corpus"]:
+            tags = tags + ["hist:" + t for t in attach_history(hrng, c)]
+        out.append((tags, c))
+    return out
 
 
 # --------------------------------------------------------------------------
@@ -940,23 +1111,38 @@ def coq_case(spec, obs):
             coq_list(["BSM" if b == "SM" else "(BClass %d)" % b for b in c["bases"]]),
             coq_list([coq_entry(i, e) for e in c["body"]]),
             coq_list([coq_string(x) for x in extra])))
+    hist = history_of(spec)
     if obs["def_err"] is not None:
         o = "HDefErr %d %d" % tuple(obs["def_err"])
-        targets = []
+        events, init = [], []
     else:
-        insts = []
-        for inst in obs["insts"]:
-            if "err" in inst:
-                insts.append("IErr %d" % inst["err"])
+        evs = []
+        events = []
+        for ev, rec in zip(hist, obs["events"]):
+            if "pub" in ev:
+                events.append("EPublish %s %s" % (coq_string(topic_path(ev["name"], ev["pub"])), coq_strs(ev["value"])))
+                evs.append("IPub %s" % coq_optstrs(rec["seen"]))
+                continue
+            events.append("EInst %s %s" % (coq_nats(rec["mro"]), coq_string(nt_name(ev["name"]))))
+            if "err" in rec:
+                evs.append("IErr %d" % rec["err"])
             else:
-                insts.append("IOk %s %s %s" % (coq_list([coq_string(x) for x in inst["names"]]),
-                                               coq_list([coq_string(x) for x in inst["descs"]]),
-                                               coq_nats(inst["calls"])))
+                evs.append("IOk %s %s %s %s %s" % (coq_strs(rec["names"]), coq_strs(rec["descs"]),
+                                                   coq_optstrs(rec["sub_names"]), coq_optstrs(rec["sub_descs"]),
+                                                   coq_nats(rec["calls"])))
         ads = ["(%d, %s, %s)" % (i, coq_string(k), coq_nats(v)) for i, k, v in obs["adapters"]]
-        o = "HDefined %s %s" % (coq_list(insts), coq_list(ads))
-        targets = obs["targets"]
-    return "{| h_classes := %s;\n   h_targets := %s;\n   h_obs := %s |}" % (
-        coq_list(cls), coq_list([coq_nats(t) for t in targets]), o)
+        o = "HDefined %s %s" % (coq_list(evs), coq_list(ads))
+        init = ["(%s, %s)" % (coq_string(t), coq_strs(v)) for t, v in obs["init"]]
+    return "{| h_classes := %s;\n   h_init := %s;\n   h_events := %s;\n   h_obs := %s |}" % (
+        coq_list(cls), coq_list(init), coq_list(events), o)
+
+
+def coq_strs(l):
+    return coq_list([coq_string(str(x)) for x in l])
+
+
+def coq_optstrs(l):
+    return "None" if l is None else "(Some %s)" % coq_strs(l)
 
 
 HEADER = ("From Coq Require Import List String.\nFrom RV Require Import Defs.Model Defs.Corr.\n"
@@ -968,9 +1154,16 @@ def printable(spec):
         for e in c["body"]:
             for s in [e["attr"], e.get("fname", ""), e.get("doc") or "", str(e.get("src", [""])[-1])] + \
                     [p[0] for p in e.get("params", [])]:
-                if '"' in s or "\\" in s or not all(32 <= ord(ch) < 127 for ch in s):
+                if not plain(s):
                     return False
+    for ev in spec.get("history", []):
+        if not all(plain(str(x)) for x in [ev["name"]] + list(ev.get("value", []))):
+            return False
     return True
+
+
+def plain(s):
+    return not ('"' in s or "\\" in s or not all(32 <= ord(ch) < 127 for ch in s))
 
 
 # --------------------------------------------------------------------------
@@ -983,13 +1176,31 @@ def shrink(spec, fp):
             return False
         return v is not None and v[0] == fp
     cur = json.loads(json.dumps(spec))
+    cur["history"] = history_of(cur)        # explicit from here on
     changed = True
     while changed:
         changed = False
+        # the history: drop events, then bind under one name
+        for j in range(len(cur["history"])):
+            cand = json.loads(json.dumps(cur))
+            cand["history"].pop(j)
+            if fails(cand):
+                cur, changed = cand, True
+                break
+        if changed:
+            continue
+        if any(ev["name"] != "a" for ev in cur["history"]):
+            cand = json.loads(json.dumps(cur))
+            for ev in cand["history"]:
+                ev["name"] = "a"
+            if fails(cand):
+                cur, changed = cand, True
+                continue
         n = len(cur["classes"])
         if n > 1 and not any((n - 1) in c["bases"] for c in cur["classes"]):
             cand = json.loads(json.dumps(cur))
             cand["classes"].pop()
+            cand["history"] = [ev for ev in cand["history"] if ev.get("c") != n - 1]
             if fails(cand):
                 cur, changed = cand, True
                 continue
@@ -1086,12 +1297,32 @@ Print Assumptions impl_reserved_rejected.
                                                        ":first" if e_["deco"][1] else ""))
         if obs["def_err"] is not None:
             ctx.count("outcome=definition:%s" % CODE_NAMES.get(obs["def_err"][1]))
-        for inst_ in obs["insts"]:
-            ctx.count("outcome=instance:%s" % (CODE_NAMES.get(inst_["err"]) if "err" in inst_ else "accepted"))
+        seen_cls, bound_by = {}, {}
+        for n_, (ev_, rec_) in enumerate(zip(history_of(spec), obs["events"])):
+            if "pub" in ev_:
+                ctx.count("event=plain publish on %s" % LEAVES[ev_["pub"]])
+                bound_by[ev_["name"]] = "publisher"
+                continue
+            k_ = seen_cls.get(ev_["c"], 0)
+            seen_cls[ev_["c"]] = k_ + 1
+            outcome_ = CODE_NAMES.get(rec_["err"]) if "err" in rec_ else "accepted"
+            ctx.count("outcome=instance:%s" % outcome_)
+            ctx.count("attempt=%s:%s" % ("first" if k_ == 0 else "repeated", "accepted" if "err" not in rec_ else "rejected"))
+            if any(j in seen_cls for j in rec_["mro"][1:]) and k_ == 0:
+                ctx.count("attempt=first attempt after a base class was attempted")
+            if any(ev_["c"] in r2["mro"][1:] for r2 in obs["events"][:n_] if "mro" in r2) and k_ == 0:
+                ctx.count("attempt=first attempt after a subclass was attempted")
+            if "err" not in rec_:
+                prev_ = bound_by.get(ev_["name"])
+                ctx.count("bind=%s" % ("fresh topic" if prev_ is None else
+                                       "over a plain publisher's value" if prev_ == "publisher" else
+                                       "over the lists of the same class" if prev_ == ev_["c"] else
+                                       "over the lists of another class"))
+                bound_by[ev_["name"]] = ev_["c"]
         key = json.dumps(spec, sort_keys=True)
         overrides = len(spec["classes"]) >= 2 and len({e["attr"] for c in spec["classes"] for e in c["body"]}) < \
             sum(len(c["body"]) for c in spec["classes"])
-        if obs["def_err"] is not None or overrides or any("err" in i_ for i_ in obs["insts"]):
+        if obs["def_err"] is not None or overrides or any("err" in i_ for i_ in obs["events"]):
             nontrivial.add(key)
     ctx.obligation("harness:class dict order equals the order of the generated source", not harness_bad,
                    "cases %r" % harness_bad[:5])
@@ -1107,7 +1338,7 @@ Print Assumptions impl_reserved_rejected.
         rc, out = res_c[name]
         lists = parse_eval_lists(out) if rc == 0 else []
         ok = rc == 0 and len(lists) == 1 and lists[0] == []
-        ctx.obligation("corr:%s (model define_all/build_states/adapter == implementation)" % name, ok, out[-1500:])
+        ctx.obligation("corr:%s (model define_all/run_history/adapter == implementation)" % name, ok, out[-1500:])
         if rc == 0 and lists and lists[0]:
             bad_total += [k * per + i for i in lists[0]]
     samples = []
@@ -1145,6 +1376,7 @@ Print Assumptions impl_reserved_rejected.
             tags, spec = gen_hier(r)
             if r.random() < 0.3:
                 add_rebinding(r, spec)
+            attach_history(r, spec)
             v = oracle(spec, run_case(spec))
             if v is not None:
                 small = shrink(spec, v[0])
@@ -1163,6 +1395,14 @@ def replay(ctx, obj):
     print(source_text(spec))
     obs = run_case(spec)
     print("observed: %s" % json.dumps({k: v for k, v in obs.items() if k != "harness_ok"}))
+    for ev, rec in zip(history_of(spec), obs["events"]):
+        if "pub" in ev:
+            print("  publish %s %r -> subscriber sees %r" % (topic_path(ev["name"], ev["pub"]), ev["value"], rec["seen"]))
+        elif "err" in rec:
+            print("  C%d() raised %s" % (ev["c"], rec.get("exc")))
+        else:
+            print("  C%d() bound as %r: state_names %r / subscriber %r; state_descriptions %r / subscriber %r"
+                  % (ev["c"], nt_name(ev["name"]), rec["names"], rec["sub_names"], rec["descs"], rec["sub_descs"]))
     v = oracle(spec, obs)
     if v is not None:
         print("property fails: %s" % v[1])
